@@ -161,8 +161,18 @@ func isSortedKeys(rs *Resid, e ast.Expr) bool {
 }
 
 func runR_C03(c *Ctx) {
+	compareCoreRules(c)
+	sortLessRules(c)
+	c.Rep.floor("R8", 50)
+}
+
+// compareCoreRules: the compare plugin's own residual rules (also part of C04 and C18, whose map handling sorts keys with
+// the derived compare function).
+func compareCoreRules(c *Ctx) {
 	sweepHealth(c, "compare")
 	rR1(c, "compare")
+	bodies := map[string]map[int]string{}
+	bodyRun := map[string]*Resid{}
 	n, rows, und := 0, 0, 0
 	for _, rs := range c.acceptedResids("compare") {
 		if rs.Err != nil || len(rs.Funcs) != 1 {
@@ -204,11 +214,33 @@ func runR_C03(c *Ctx) {
 		if len(c.Rep.Samples) < 5 && rs.Run.Config == "leaf" {
 			c.Rep.sample(map[string]interface{}{"plugin": "compare", "path": rs.Run.shapeKey(), "table_rows": np, "residual": rs.Run.Text})
 		}
+		// curried vs two-argument agreement (same construction as for equal)
+		var ds []string
+		for _, d := range rs.Run.Decisions {
+			if d.Sym == "ARGS" || strings.HasPrefix(d.Sym, "B:types.Identical(") {
+				continue
+			}
+			ds = append(ds, fmt.Sprintf("%s=%d", d.Sym, d.Choice))
+		}
+		k := rs.Run.Config + "|" + strings.Join(ds, ";")
+		if bodies[k] == nil {
+			bodies[k] = map[int]string{}
+		}
+		text := rs.src(s.body)
+		text = replaceIdent(text, s.A, "§A")
+		text = replaceIdent(text, s.B, "§B")
+		text = holeRe.ReplaceAllString(text, "_")
+		bodies[k][rs.Run.NArgs] = strings.Join(strings.Fields(text), " ")
+		bodyRun[k] = rs
 	}
+	for k, m := range bodies {
+		if len(m) == 2 && m[1] != m[2] {
+			c.Rep.fail(residFinding(c.Repo, bodyRun[k], "R-curried", "differs", "compare: the one-argument (curried) form and the two-argument form emit different comparison bodies for the same type shape", bodyRun[k].Funcs[0]))
+		}
+	}
+	curriedCompat(c, "compare", bodies, bodyRun)
 	g9Methods(c, methodSpec{"compare.compareMethodInputParam", "Compare", 1, 1, types.Int})
-	sortLessRules(c)
 	c.Rep.analysed("compare_residuals", n)
 	c.Rep.analysed("compare_table_rows", rows)
-	c.Rep.floor("R8", 50)
 	_ = strings.TrimSpace
 }
